@@ -58,9 +58,9 @@ func replyTerminals(fn *ssa.Function) []replyTerm {
 						if len(r2.Results) >= 1 {
 							var e2 ssa.Value
 							if len(r2.Results) == 2 {
-								e2 = r2.Results[1]
+								e2 = res(r2, 1)
 							}
-							follow(r2.Results[0], e2, ret, append(append([]*ssa.Call{}, chain...), c), callee, depth+1)
+							follow(res(r2, 0), e2, ret, append(append([]*ssa.Call{}, chain...), c), callee, depth+1)
 						}
 					}
 					return
@@ -86,9 +86,9 @@ func replyTerminals(fn *ssa.Function) []replyTerm {
 		}
 		var ev ssa.Value
 		if len(ret.Results) == 2 {
-			ev = ret.Results[1]
+			ev = res(ret, 1)
 		}
-		follow(ret.Results[0], ev, ret, nil, fn, 0)
+		follow(res(ret, 0), ev, ret, nil, fn, 0)
 	}
 	return out
 }
@@ -113,14 +113,20 @@ func variadicIEs(c *ssa.Call) []ssa.Value {
 	if len(c.Call.Args) == 0 {
 		return nil
 	}
+	var fixed []ssa.Value
+	for _, a := range c.Call.Args {
+		if typeName(a.Type()) == "*"+iePkg+".IE" {
+			fixed = append(fixed, a)
+		}
+	}
 	last := c.Call.Args[len(c.Call.Args)-1]
 	sl, ok := last.(*ssa.Slice)
 	if !ok {
-		return nil
+		return fixed
 	}
 	arr, ok := sl.X.(*ssa.Alloc)
 	if !ok {
-		return nil
+		return fixed
 	}
 	type kv struct {
 		idx int64
@@ -138,7 +144,7 @@ func variadicIEs(c *ssa.Call) []ssa.Value {
 		}
 	}
 	sort.Slice(items, func(i, j int) bool { return items[i].idx < items[j].idx })
-	var out []ssa.Value
+	out := fixed
 	for _, it := range items {
 		out = append(out, it.v)
 	}
@@ -556,7 +562,7 @@ func ruleC02SEID(w *World, r *Report, handlers map[string]*ssa.Function, accepte
 			zero := true
 			desc := ""
 			for _, ret := range returnsOf(callee) {
-				if c, ok := ret.Results[0].(*ssa.Call); ok {
+				if c, ok := res(ret, 0).(*ssa.Call); ok {
 					if seid := ctorArg(c, "seid"); seid != nil {
 						if k, isK := constInt(seid); isK && k == 0 {
 							desc = "constant 0"
